@@ -37,6 +37,7 @@ package storage
 //@   requires ReqShape(cur)
 //@   modifies nothing
 //@   ensures [new] result != nil && fresh(result) && result.Transaction == hash && result.Timestamp == ts
+//@   ensures [shape] ReqShape(result)
 //@   ensures [content] common.SameReq(result, cur)
 //@   ensures [deep] (result.Custodian == nil || fresh(result.Custodian)) && (result.Signature == nil || fresh(result.Signature)) &&
 //@       (len(result.Nodes) == 0 || fresh(result.Nodes)) &&
@@ -58,11 +59,15 @@ package storage
 //@ -- "every entry is EntryOK" is ASSUMED for the entry a lookup touches (it relates the process-wide cache to the store: a TRANSACTION
 //@ -- entry referenced by a custodian record is never rewritten with different bytes) and PROVED to hold for it afterwards; a lookup writes
 //@ -- no other entry (LoadOrStore) and no cached object (`modifies *cache` only), so the invariant is preserved as a whole (meta-step).
-//@ spec EntryOK(cache *sync.Map, t badger.Txn, ck custodianCacheKey) bool = sync.smhas(*cache, iface(ck)) ==>
-//@     exists o *common.CustodianUpdateRequest :: sync.smval(*cache, iface(ck)) == iface(o) && ReqShape(o) &&
-//@        common.ReqIs(o, TxExtraOf(TxOf(t, kvval(ck.transaction))), ck.genesis)
-//@ spec EntryFor(cache *sync.Map, t badger.Txn, v mathint, g bool) bool = cache != nil ==>
-//@     forall ck custodianCacheKey :: {sync.smhas(*cache, iface(ck))} kvval(ck.transaction) == v && ck.genesis == g ==> EntryOK(cache, t, ck)
+//@ -- KeyHash / KeyGen: the two components of a cache key, read off the interface value it is stored under (Go compares the boxed
+//@ -- custodianCacheKey structs by value, so the components are functions of the interface value). Definitional.
+//@ uninterp KeyHash(k any) mathint
+//@ uninterp KeyGen(k any) bool
+//@ axiom @C11 forall ck custodianCacheKey :: {iface(ck)} KeyHash(iface(ck)) == kvval(ck.transaction) && KeyGen(iface(ck)) == ck.genesis
+//@ spec EntryOK(cache *sync.Map, t badger.Txn, k any) bool = sync.smhas(*cache, k) ==>
+//@     exists o *common.CustodianUpdateRequest :: sync.smval(*cache, k) == iface(o) && ReqShape(o) &&
+//@        common.ReqIs(o, TxExtraOf(TxOf(t, KeyHash(k))), KeyGen(k))
+//@ spec CacheAll(cache *sync.Map, t badger.Txn) bool = cache != nil ==> forall k any :: {sync.smhas(*cache, k)} EntryOK(cache, t, k)
 //@ -- the iterator sits on a custodian record whose value is a 32-byte hash of a stored transaction, and sees what the transaction sees
 //@ spec OnCustRecord(t badger.Txn, it *badger.Iterator) bool = it != nil && badger.itkey(*it) != 0 && IsCustKey(badger.itkey(*it)) &&
 //@     badger.itget(it, badger.itkey(*it)) == badger.kvget(t, badger.itkey(*it)) && badger.vallen(badger.kvget(t, badger.itkey(*it))) == 32 &&
@@ -70,10 +75,50 @@ package storage
 
 //@ func parseCustodianUpdateItem
 //@   property C11
-//@   requires txn != nil && OnCustRecord(*txn, it) && EntryFor(cache, *txn, badger.kvget(*txn, badger.itkey(*it)), genesis)
+//@   requires txn != nil && OnCustRecord(*txn, it) && CacheAll(cache, *txn)
 //@   modifies *cache
 //@   ensures [reject] err != nil ==> result0 == nil
-//@   ensures [content] err == nil ==> result0 != nil && fresh(result0) && result0.Timestamp == keynum(badger.itkey(*it)) &&
+//@   ensures [content] err == nil ==> result0 != nil && fresh(result0) && ReqShape(result0) && result0.Timestamp == keynum(badger.itkey(*it)) &&
 //@       kvval(result0.Transaction) == badger.kvget(*txn, badger.itkey(*it)) &&
 //@       common.ReqIs(result0, TxExtraOf(TxOf(*txn, badger.kvget(*txn, badger.itkey(*it)))), genesis)
-//@   ensures [cache-inv] EntryFor(cache, *txn, badger.kvget(*txn, badger.itkey(*it)), genesis)
+//@   ensures [cache-inv] CacheAll(cache, *txn)
+
+//@ -- ═════════ the lookup: the record of greatest timestamp <= ts ═════════
+//@ -- CustOK: representation invariant of the snapshots DB for this prefix (requires of the readers; writeCustodianNodes is the only writer):
+//@ -- every CUSTODIANUPDATE entry is keyed CUSTODIANUPDATE|be64(t), holds a 32-byte hash, and the transaction with that hash is stored.
+//@ spec CustOK(t badger.Txn) bool = forall k mathint :: {badger.kvget(t, k)} badger.kvget(t, k) != 0 && badger.keypfx(k, strkey(graphPrefixCustodianUpdate)) == 0 ==>
+//@     IsCustKey(k) && badger.vallen(badger.kvget(t, k)) == 32 && TxOf(t, badger.kvget(t, k)) != 0
+//@ -- NoneBelow(t, T): no custodian record before T — the record at T is the first one (it is parsed with the genesis flag)
+//@ spec NoneBelow(t badger.Txn, T mathint) bool = forall x mathint :: {CustAt(t, x)} 0 <= x && x < T ==> CustAt(t, x) == 0
+//@ spec U64T(x mathint) bool = 0 <= x && x < 18446744073709551616
+//@ -- what is known about a returned request r for the record at its own timestamp
+//@ spec RecordOf(t badger.Txn, r *common.CustodianUpdateRequest) bool = CustAt(t, r.Timestamp) != 0 && kvval(r.Transaction) == CustAt(t, r.Timestamp) &&
+//@     (NoneBelow(t, r.Timestamp) ==> common.ReqIs(r, TxExtraOf(TxOf(t, CustAt(t, r.Timestamp))), true)) &&
+//@     (!NoneBelow(t, r.Timestamp) ==> common.ReqIs(r, TxExtraOf(TxOf(t, CustAt(t, r.Timestamp))), false))
+
+//@ func readCustodianAccount
+//@   property C11
+//@   requires txn != nil && CustOK(*txn) && CacheAll(cache, *txn)
+//@   modifies *cache
+//@   ensures [error] err != nil ==> result0 == nil
+//@   ensures [none] err == nil && result0 == nil ==> forall x mathint :: {CustAt(*txn, x)} U64T(x) && x <= ts ==> CustAt(*txn, x) == 0
+//@   ensures [greatest] err == nil && result0 != nil ==> result0.Timestamp <= ts &&
+//@       (forall x mathint :: {CustAt(*txn, x)} U64T(x) && result0.Timestamp < x && x <= ts ==> CustAt(*txn, x) == 0)
+//@   ensures [record] err == nil && result0 != nil ==> fresh(result0) && RecordOf(*txn, result0)
+//@   ensures [cache-inv] CacheAll(cache, *txn)
+//@   -- proof guidance (checked where stated, then assumed): the position is the custodian key of its own timestamp; the genesis flag is
+//@   -- true exactly when no record precedes it; hence what parseCustodianUpdateItem returns is the record of that timestamp
+//@   hint at "cur, err := parseCustodianUpdateItem(txn, it, genesis, cache)" [key] IsCustKey(badger.itkey(*it)) && keynum(badger.itkey(*it)) <= ts &&
+//@       CustAt(*txn, keynum(badger.itkey(*it))) == badger.kvget(*txn, badger.itkey(*it)) && CustAt(*txn, keynum(badger.itkey(*it))) != 0
+//@   hint at "cur, err := parseCustodianUpdateItem(txn, it, genesis, cache)" [flag-first] genesis ==> NoneBelow(*txn, keynum(badger.itkey(*it)))
+//@   hint at "cur, err := parseCustodianUpdateItem(txn, it, genesis, cache)" [flag-later] !genesis ==> !NoneBelow(*txn, keynum(badger.itkey(*it)))
+//@   hint after parseCustodianUpdateItem [record] callresult1 == nil ==> RecordOf(*txn, callresult0)
+//@   loop 0 invariant [iter] it != nil && !badger.itrev(it) && badger.itprefix(it) == strkey(graphPrefixCustodianUpdate) &&
+//@       (forall k mathint :: {badger.itget(it, k)} badger.itget(it, k) == badger.kvget(*txn, k))
+//@   loop 0 invariant [cache] CacheAll(cache, *txn)
+//@   loop 0 invariant [pos] badger.itkey(*it) != 0 ==> badger.itget(it, badger.itkey(*it)) != 0 && !badger.keylt(badger.itkey(*it), CustKeyId(0))
+//@   loop 0 invariant [gen] genesis <==> found == nil
+//@   loop 0 invariant [found] found != nil ==> fresh(found) && ReqShape(found) && U64T(found.Timestamp) && found.Timestamp <= ts && RecordOf(*txn, found) &&
+//@       (badger.itkey(*it) != 0 ==> badger.keylt(CustKeyId(found.Timestamp), badger.itkey(*it)))
+//@   loop 0 invariant [above] forall x mathint :: {CustAt(*txn, x)} U64T(x) && CustAt(*txn, x) != 0 && (found == nil || found.Timestamp < x) ==>
+//@       badger.itkey(*it) != 0 && !badger.keylt(CustKeyId(x), badger.itkey(*it))
